@@ -54,6 +54,8 @@ func cmdGen(args []string) {
 			b = g.behC19()
 		case "C10":
 			b = g.behC10()
+		case "C20":
+			b = g.behC20()
 		default:
 			if fn, ok := genFns[*prop]; ok {
 				b = fn(g)
@@ -790,5 +792,45 @@ func (g *gen) behC10() M {
 	} else {
 		steps = append(steps, send(M{"t": "S"}))
 	}
+	return M{"cfg": cfg, "steps": steps}
+}
+
+// behC20: long random queries: many markers, repetitions, large indexes.
+func (g *gen) behC20() M {
+	n := g.rng.Intn(40)
+	toks := []any{}
+	style := g.rng.Intn(3) // 0: $n, 1: ?, 2: $n with beyond-limit indexes
+	for i := 0; i < n; i++ {
+		switch {
+		case g.chance(0.4):
+			toks = append(toks, M{"k": "text"})
+		case style == 1:
+			toks = append(toks, M{"k": "q"})
+		default:
+			idx := []int{0, 1, 2, 3, 4, 5, 7, 10, 100, 1000, 65534, 65535}[g.rng.Intn(12)]
+			if g.chance(0.5) {
+				idx = g.rng.Intn(20)
+			}
+			if style == 2 && g.chance(0.3) {
+				idx = -1
+			}
+			toks = append(toks, M{"k": "d", "n": idx})
+		}
+	}
+	steps := []any{M{"k": "parseparams", "toks": toks}}
+	beyond := false
+	for _, t := range toks {
+		if run.I(run.AsM(t), "n") < 0 {
+			beyond = true
+		}
+	}
+	if !beyond {
+		g.id++
+		st := M{"id": g.id, "cols": []any{}, "oids": []any{}, "toks": toks, "prog": []any{M{"op": "complete", "tag": "OK"}, M{"op": "ret", "r": "nil"}}}
+		steps = append(steps, startup("u"), send(M{"t": "P", "name": "", "q": M{"id": g.id, "parse": "ok", "stmts": []any{st}}, "noids": 0}),
+			send(M{"t": "D", "kind": "S", "name": ""}), send(M{"t": "S"}))
+	}
+	cfg := baseCfg()
+	cfg["limit"] = 1 << 20
 	return M{"cfg": cfg, "steps": steps}
 }
